@@ -544,6 +544,11 @@ func execCase(c *tcase) string {
 	}
 	deps := &httpservice.ModuleDependencies{HTTPDomainMappingRepo: repo, DomainRegistry: reg, CloudControl: cloud}
 	w := &world{repo: repo, proxy: domainproxy.VerifNewForLookup(deps), reg: reg, store: gs}
+	// a second repository instance and proxy module over the same storage (second node / restarted node): the odd
+	// threads go through it
+	repo2 := repos.NewHTTPDomainMappingRepository(repos.NewRepository(gs), c.bases)
+	deps2 := &httpservice.ModuleDependencies{HTTPDomainMappingRepo: repo2, DomainRegistry: reg, CloudControl: cloud}
+	w2 := &world{repo: repo2, proxy: domainproxy.VerifNewForLookup(deps2), reg: reg, store: gs}
 
 	done := make([]bool, n)
 	wait := func() (event, bool) {
@@ -567,7 +572,11 @@ func execCase(c *tcase) string {
 			}()
 			for _, o := range c.threads[t] {
 				s.park()
-				s.result = w.runOp(o)
+				if t%2 == 1 {
+					s.result = w2.runOp(o)
+				} else {
+					s.result = w.runOp(o)
+				}
 			}
 		}()
 		ev, ok := wait()
@@ -848,9 +857,11 @@ func lookRes(pm *models.PortMapping, ok bool) string {
 }
 
 type rop struct {
-	kind byte // 'r', 'x', 'l'
+	kind byte // 'r' Register, 'x' Unregister, 'l' LookupByHost, 'i' UnregisterByMappingID, 'b' Rebuild, 'a' IsSubdomainAvailable
 	e    ext
 	s    string
+	s2   string
+	es   []ext
 }
 
 func (o rop) String() string {
@@ -859,6 +870,16 @@ func (o rop) String() string {
 		return "r:" + o.e.String()
 	case 'x':
 		return "x:" + hx(o.s)
+	case 'i':
+		return "xi:" + hx(o.s)
+	case 'a':
+		return "av:" + hx(o.s) + ":" + hx(o.s2)
+	case 'b':
+		var xs []string
+		for _, e := range o.es {
+			xs = append(xs, e.String())
+		}
+		return "rb=" + strings.Join(xs, ",")
 	}
 	return "l:" + hx(o.s)
 }
@@ -896,6 +917,35 @@ func runRegSeq(toks []string) (string, string, error) {
 				return "", "", err
 			}
 			ops = append(ops, rop{kind: 'r', e: e})
+		case strings.HasPrefix(tok, "rb="):
+			o := rop{kind: 'b'}
+			if body := tok[3:]; body != "" {
+				for _, et := range strings.Split(body, ",") {
+					e, err := parseExt(et)
+					if err != nil {
+						return "", "", err
+					}
+					o.es = append(o.es, e)
+				}
+			}
+			ops = append(ops, o)
+		case strings.HasPrefix(tok, "xi:"):
+			v, err := uhx(tok[3:])
+			if err != nil {
+				return "", "", err
+			}
+			ops = append(ops, rop{kind: 'i', s: v})
+		case strings.HasPrefix(tok, "av:"):
+			f := strings.Split(tok, ":")
+			if len(f) != 3 {
+				return "", "", fmt.Errorf("bad av")
+			}
+			a, err1 := uhx(f[1])
+			b, err2 := uhx(f[2])
+			if err1 != nil || err2 != nil {
+				return "", "", fmt.Errorf("bad av")
+			}
+			ops = append(ops, rop{kind: 'a', s: a, s2: b})
 		case strings.HasPrefix(tok, "x:"), strings.HasPrefix(tok, "l:"):
 			v, err := uhx(tok[2:])
 			if err != nil {
@@ -927,6 +977,22 @@ func execRegSeq(bases []string, ops []rop) (obs string) {
 		case 'x':
 			reg.Unregister(o.s)
 			out = append(out, "ok")
+		case 'i':
+			reg.UnregisterByMappingID(o.s)
+			out = append(out, "ok")
+		case 'b':
+			var pms []*models.PortMapping
+			for _, e := range o.es {
+				pms = append(pms, e.portMapping())
+			}
+			reg.Rebuild(pms)
+			out = append(out, "ok")
+		case 'a':
+			if reg.IsSubdomainAvailable(o.s, o.s2) {
+				out = append(out, "b:1")
+			} else {
+				out = append(out, "b:0")
+			}
 		default:
 			out = append(out, lookRes(reg.LookupByHost(o.s)))
 		}
@@ -1083,6 +1149,15 @@ func replayFile(out *vc.Out, path string) {
 		if strings.HasPrefix(line, "K:") {
 			sp := strings.IndexByte(line, ' ')
 			key, line = line[2:sp], line[sp+1:]
+		}
+		if strings.HasPrefix(line, "c19h ") {
+			hcs, err := parseHCase(strings.Fields(line))
+			if err != nil {
+				fmt.Fprintln(os.Stderr, "bad corpus line:", err)
+				os.Exit(3)
+			}
+			emitH(out, hcs)
+			continue
 		}
 		if strings.HasPrefix(line, "c19q ") {
 			cs, obs, err := runRegSeq(strings.Fields(line))
